@@ -459,6 +459,45 @@ func ruleW9(r *Run) {
 			}
 			return true
 		})
+		// a list handed out by a repository helper that builds it the same way (make + copy)
+		ast.Inspect(fd.Body, func(m ast.Node) bool {
+			as, ok := m.(*ast.AssignStmt)
+			if !ok || len(as.Lhs) != 1 || len(as.Rhs) != 1 {
+				return true
+			}
+			c, ok := ast.Unparen(as.Rhs[0]).(*ast.CallExpr)
+			if !ok {
+				return true
+			}
+			if tv, ok := info.Types[as.Rhs[0]]; !ok || tv.Type.String() != "[]reflect.Type" {
+				return true
+			}
+			d, cpkg := p.calleeDecl(info, c)
+			if d == nil {
+				return true
+			}
+			ci := cpkg.TypesInfo
+			made, cop := false, false
+			ast.Inspect(d.Body, func(k ast.Node) bool {
+				if cc, ok := k.(*ast.CallExpr); ok {
+					if IsBuiltin(ci, cc, "make") {
+						if tv, ok := ci.Types[cc.Args[0]]; ok && tv.Type.String() == "[]reflect.Type" {
+							made = true
+						}
+					}
+					if IsBuiltin(ci, cc, "copy") {
+						cop = true
+					}
+				}
+				return true
+			})
+			if made && cop {
+				if o := identObj(info, as.Lhs[0]); o != nil {
+					copied[o] = true
+				}
+			}
+			return true
+		})
 		if len(copied) == 0 {
 			return
 		}
